@@ -350,6 +350,9 @@ func main() {
 	if len(m.Samples) == 0 {
 		cov["samples"] = []any{"(no sample recorded)"}
 	}
+	if m.Assumptions == nil {
+		m.Assumptions = []string{"see level_note of this check in MANIFEST.json"}
+	}
 	ev := map[string]any{
 		"property_id": id, "tier": tier, "seed": seed, "level": "model_checking",
 		"coverage": cov, "assumptions": m.Assumptions, "wall_s": time.Since(start).Seconds(), "violations": nviol,
